@@ -260,6 +260,10 @@ class IoExec(Exec):
             row = self.ev(args[1]) if name.endswith("::read_scanline") and len(args) > 1 else None
             self.ev_event("librow", lib=name.split("::")[-1], row=row, line=n.get("line"))
             return Poly.const(1) if name == "jpeg_read_scanlines" else None
+        if name in ("png_write_row", "jpeg_write_scanlines") or name.endswith("::write_scaline") or name.endswith("::write_scanline"):
+            row = self.ev(args[1]) if ("::write_sca" in name and len(args) > 1) else None
+            self.ev_event("libwrite", lib=name.split("::")[-1], row=row, line=n.get("line"))
+            return Poly.const(1) if name == "jpeg_write_scanlines" else None
         if re.search(r"_device::print_line$", name):
             self.ev(args[0])
             self.ev_event("text", key=R.key(args[0])[:100], line=n.get("line"))
@@ -344,6 +348,7 @@ def run(rep):
     tiff_tiles(rep)
     lib_dimensions(rep)
     lib_wire_pixels(rep)
+    lib_row_order(rep)
 
 
 def tmpl_arg(full, member):
@@ -1162,3 +1167,51 @@ class ScanExec(IoExec):
             return None
         return IoExec.on_call(self, n)
 
+
+
+def lib_row_order(rep):
+    """W8: the library-backed writers hand view row y to the codec as row y"""
+    rep.rule("W8 png/jpeg/tiff(strip) writers: in the row loop the row copied into the buffer is view row y for y = 0..H-1 ascending, each followed by one codec row write "
+             "(tiff: written as row y)")
+    wd = C.workdir("C12rows")
+    d = C.astdump(os.path.join(C.DRIVERS, "c12_lib.cpp"), os.path.join(wd, "lib.json"), ['^boost::gil::writer::', '^boost::gil::writer_backend::'], defs=C.IO_DEFS)
+    if d.get("errors"):
+        raise C.AnalysisBroken("drivers/c12_lib.cpp has compile errors")
+    fns = d["functions"]
+    seen = {}
+    for f in fns:
+        fmt = fmt_of(f)
+        short = f["name"].split("::")[-1]
+        if fmt not in ("png", "jpeg", "tiff") or short not in ("write_view", "write_rows", "write_data", "write_bit_aligned_view_to_dev", "write_view_to_dev") or f.get("body") is None:
+            continue
+        ex = ScanExec(fns)
+        try:
+            ex.invoke(f, [])
+        except Stop:
+            continue
+        ws = [e for e in ex.events if e["kind"] == "libwrite" and e["loop"]]
+        cps = [e for e in ex.events if e["kind"] == "rowcopy" and e["loop"]]
+        if not ws:
+            continue
+        key = "W8:%s:%s" % (fmt, short)
+        prob = []
+        for w in ws:
+            cp = [c for c in cps if c["loop"] == w["loop"]]
+            lp = w["loop"][-1]
+            iv = Poly.atom(lp["iv"])
+            if not cp:
+                prob.append("no row copy in the loop of the codec write at line %s" % w["line"])
+                continue
+            if cp[0]["y"] != iv or lp["init"] != Poly.const(0) or lp["step"] != 1 or lp.get("trip") != Poly.atom("H"):
+                prob.append("row loop: copies view row %r for y from %r step %s, %r iterations (expected rows 0..H-1 ascending)" % (cp[0]["y"], lp["init"], lp["step"], lp.get("trip")))
+            if w["row"] is not None and w["row"] != iv:
+                prob.append("the row is written as codec row %r" % (w["row"],))
+        if key not in seen or (not seen[key][0] and prob):
+            seen[key] = (prob, "%s:%s" % (rel_path(f), f["line"]))
+    for key, (prob, where) in sorted(seen.items()):
+        rep.count("obligations:W8")
+        if prob:
+            rep.violation("W8-lib-row-order", key, where, {"problems": prob})
+        else:
+            rep.ok("W8-lib-row-order", key, "view row y -> codec row y, y = 0..H-1")
+    rep.floor("obligations:W8", 3)
